@@ -120,6 +120,20 @@ class MathShim:
     def isnan(self, x):
         return False if isinstance(x, Sym) else math.isnan(x)
 
+    def isfinite(self, x):
+        return True if isinstance(x, Sym) else math.isfinite(x)
+
+    def isclose(self, a, b, rel_tol=1e-09, abs_tol=0.0):
+        if not self._sym(a, b):
+            return math.isclose(a, b, rel_tol=rel_tol, abs_tol=abs_tol)
+        d = abs(a - b)
+        return bool(d <= zmax(rel_tol * zmax(abs(a), abs(b)), abs_tol))
+
+    def copysign(self, a, b):
+        if not self._sym(a, b):
+            return math.copysign(a, b)
+        return abs(a) if b >= 0 else -abs(a)
+
 
 # ------------------------------------------------------------------ numpy
 # record / replay of RNG outcomes inside one path (same seed => same draws; used by C14, C15, C16)
@@ -340,6 +354,32 @@ class NpShim:
         if isinstance(a, Sym) or isinstance(b, Sym):
             return zmin(a, b)
         return numpy.minimum(a, b)
+
+    def clip(self, x, lo, hi, *a, **kw):
+        if self._has_sym(x, lo, hi) and not isinstance(x, (list, tuple, numpy.ndarray)):
+            y = x
+            if lo is not None:
+                y = zmax(y, lo)
+            if hi is not None:
+                y = zmin(y, hi)
+            return y
+        return numpy.clip(x, lo, hi, *a, **kw)
+
+    def round(self, x, decimals=0, *a, **kw):
+        if isinstance(x, Sym):
+            return x.__round__(decimals)
+        return numpy.round(x, decimals, *a, **kw)
+
+    around = round
+
+    def sign(self, x):
+        return x.sign() if isinstance(x, Sym) else numpy.sign(x)
+
+    def where(self, cond, *a):
+        from .engine import SymBool
+        if isinstance(cond, SymBool) and len(a) == 2:
+            return a[0] if bool(cond) else a[1]
+        return numpy.where(cond, *a)
 
     # ---- array construction: a float dtype cannot hold proxies, keep them as objects
     def _arr(self, fn, x, *a, **kw):
